@@ -325,10 +325,10 @@ SUBCHECKS = [
                   "DiagX, Libor-type sigma*x) x initial values x levels 0 (single process) / 1..2 (coupled pair): "
                   "captured driver path -> harness Euler recursion step by step, plus closed forms for constant and "
                   "diagonal coefficients; non-trivial = >= 3 driver steps (single: with >= 1 jump)",
-             strategy=strat_sde, budget={"quick": 480, "thorough": 6000}, shards={"quick": 16, "thorough": 16}),
+             strategy=strat_sde, budget={"quick": 1440, "thorough": 6000}, shards={"quick": 16, "thorough": 16}),
     SubCheck("discount-factors", body_df, classify_df,
              rule="LevyForwardModel / LevyLiborModel with 1..6 periods, rates >= 0 (incl. 0), increasing tenors: df(0)=1, "
                   "positive, non-increasing on a 41-point mesh united with every tenor and its float neighbours, "
                   "continuous at tenors, equal to simple compounding of the initial curve; non-trivial = >= 2 periods",
-             strategy=strat_df, budget={"quick": 800, "thorough": 12000}),
+             strategy=strat_df, budget={"quick": 2400, "thorough": 12000}),
 ]
